@@ -4,9 +4,11 @@ import glob, json, os
 V = os.path.dirname(os.path.dirname(os.path.abspath(__file__)))
 props = [json.loads(l) for l in open(os.path.join(V, 'properties.jsonl'))]
 checks = {}
+integrated = set(json.load(open(os.path.join(V, 'manifest.d', 'integrated.json'))))
 for f in sorted(glob.glob(os.path.join(V, 'manifest.d', 'C*.json'))):
     c = json.load(open(f))
-    checks[c['property_id']] = c
+    if c['property_id'] in integrated:       # fragments of checks still under construction are not claimed
+        checks[c['property_id']] = c
 na_reasons = {}
 p = os.path.join(V, 'manifest.d', 'not_applicable.json')
 if os.path.exists(p):
@@ -31,6 +33,8 @@ json.dump(man, open(os.path.join(V, 'MANIFEST.json'), 'w'), indent=1)
 kf = {"_doc": "Genuine defects of the pinned nfcpy tree. 'findings' (still open) are reported as KNOWN-FINDING (exit 0) when a check re-finds exactly that input class / call site: 'key' is a regex matched against the key the check computes for a concrete failure. 'fixed' entries suppress nothing. Assembled from findings/*.json by tools/mkmanifest.py.",
       "findings": [], "fixed": []}
 for f in sorted(glob.glob(os.path.join(V, 'findings', 'C*.json'))):
+    if os.path.basename(f)[:3] not in integrated:
+        continue
     d = json.load(open(f))
     kf['findings'] += d.get('findings', [])
     kf['fixed'] += d.get('fixed', [])
